@@ -38,7 +38,7 @@ Members(f, top) ==
 VARIABLES fam, top, t
 Init == fam \in Fams /\ top \in Tops /\ t = <<"SEED">>
 Next == t = <<"SEED">> /\ t' \in Members(fam, top) /\ UNCHANGED <<fam, top>>
-\* the theorem, with the open finding as a named exemption
-PrintParseOrKnown == t = <<"SEED">> \/ PrintParse(t) \/ Trigger_F_C02_a(t)
+\* the theorem (no exemption: F-C02-a is repaired; under DEV_NEG_ATOM=1 it fails exactly on Trigger_F_C02_a)
+PrintParseOrKnown == t = <<"SEED">> \/ PrintParse(t) \/ (DevNegAtom /\ Trigger_F_C02_a(t))
 Emit == t = <<"SEED">> \/ EmitLine("CASE " \o JsonOf([fam |-> fam, tree |-> t, pp |-> PrintParse(t), trig |-> Trigger_F_C02_a(t)]))
 =============================================================================
